@@ -162,6 +162,8 @@ def verdict(spec):
 def run_enum(case):
     cn = case['cls']
     spec = valid_spec(cn, 0 if case.get('shape') == 'min' else 1, 0)
+    for dropped in case.get('drop_attrs', ()):
+        spec['attrs'].pop(dropped, None)
     fault = case.get('fault')
     if fault:
         spec = apply_fault(spec, fault)
@@ -210,6 +212,13 @@ def enum_cases(tier):
             for f in faults_for(cn):
                 for pl in pls:
                     out.append({'cls': cn, 'fault': f, 'placement': pl, 'shape': shape})
+    # class-specific verify() rules look at one attribute only when another is absent: enumerate those shapes too
+    for cn in ('saml:SubjectLocality', 'saml:SubjectLocalityType_'):
+        for pl in ([], [['saml:AuthnStatement', 'subject_locality']]):
+            if cn.endswith('Type_') and pl:
+                continue
+            out.append({'cls': cn, 'placement': pl, 'shape': 'full', 'drop_attrs': ['address']})
+            out.append({'cls': cn, 'placement': pl, 'shape': 'full', 'drop_attrs': ['dns_name']})
     _cases[tier] = out
     return out
 
